@@ -1,5 +1,5 @@
 import B6.Model.Validator
-import B6.Lemmas.Validator
+import B6.Lemmas.ValidatorPerm
 /-!
 # C36 — Builds give the same world for any degree of parallelism
 
@@ -26,7 +26,7 @@ extracts have distinct ids).  Not modelled: the Go scheduler and memory model (C
 (different tables decode to the same strings; tied by the observation dumps), S2.
 -/
 namespace B6.Props.C36
-open B6.Model.Validator B6.Lemmas.Validator
+open B6.Model.Validator B6.Lemmas.ValidatorPerm
 
 /-! ## the validator -/
 
